@@ -171,6 +171,26 @@ def jobs_for(tier, seed):
             data = [rng.getrandbits(8) for _ in range(rng.randrange(1, 120))] + data[-8:]     # pure random + trailer
         for ch in chunkings(rng, len(data)):
             jobs.append((proto, data, ch))
+    # long homogeneous runs (several hundred bytes): many items of one kind arrive before anybody fetches them
+    for count in (33, 40, 70):
+        for kind in ("back", "conf", "cmd"):
+            lub, sci = [], []
+            for j in range(count):
+                v = (7 * j + count) % 256
+                if kind == "back":
+                    lub += luba_frame(0x31, [0, 0, 0, 0x80 | 8, v])
+                    sci += sci_block(0x12, [0, 0, v])
+                elif kind == "conf":
+                    lub += luba_frame(0x31, [0, 0, 0, 16, j % 256, 0xA0, v])
+                    sci += sci_block(0x10, [0, 0, 0])
+                else:
+                    lub += luba_frame(0x31, [0, 0, 0, 0x80 | 16, 0xA0 + 2 * (j % 8), v])
+                    sci += sci_block(0x13, [0, 0xA0 + 2 * (j % 8), v])
+            tail_l, tail_s = luba_frame(0x31, [0, 0, 0, 0x80 | 8, 0x42]), sci_block(0x12, [0, 0, 0x42])
+            for proto, data in (("luba", lub + tail_l), ("sci", sci + tail_s)):
+                jobs.append((proto, data, [len(data)]))
+                jobs.append((proto, data, [1] * len(data)))
+                jobs.append((proto, data, [7] * (len(data) // 7) + ([len(data) % 7] if len(data) % 7 else [])))
     # every length byte at the length position, followed by a well-formed frame
     for ln in range(256):
         data = [0x59, 0x31, ln] + luba_frame(0x31, [0, 0, 0, 0x80 | 8, 0x42]) * 3
